@@ -92,7 +92,7 @@ def run_gen(spec, res):
     schemas = {}
     for fam in D.FAMILIES:
         for v, cls in (('1.0', xmlschema.XMLSchema10), ('1.1', xmlschema.XMLSchema11)):
-            schemas[fam, v] = cls(D.FAMILIES[fam])
+            schemas[fam, v] = cls(D.family_xsd(fam, v))
     rng = env.rng_for(PROPERTY, spec['tier'], spec['seed'], spec['gshard'])
     for d in range(spec['docs']):
         fam = rng.choice(('shop', 'shop', 'tree', 'ctx'))
@@ -234,7 +234,7 @@ def replay(case):
                 check_paths(res, schema, resource, list(schema.iter_errors(resource)), case['corpus'], case)
     else:
         cls = xmlschema.XMLSchema10 if case['version'] == '1.0' else xmlschema.XMLSchema11
-        schema = cls(D.FAMILIES[case['family']])
+        schema = cls(D.family_xsd(case['family'], case['version']))
         resource = xmlschema.XMLResource(case['doc'])
         errs = list(schema.iter_errors(resource))
         print(case['doc'])
